@@ -109,9 +109,20 @@ def gen_history(rng: random.Random, tier: str) -> dict:
     return {"kind": "history", "dates": dates, "steps": steps, "world": {"files": {}}, "day0": core.EPOCH_DAY}
 
 
+def finalize(results: list[dict], tier: str) -> list[dict]:
+    """The shards assume the natural suffix order.  When zorg hands out another
+    order (legal: the statement fixes none) their composition proves nothing, so
+    the whole chain is then driven once more as ONE sequential history."""
+    if any((r.get("stats") or {}).get("order-differs-from-natural-enumeration") for r in results if r["idx"] < SHARDS):
+        return [{"kind": "full", "date": _real_dt.date(2031, 7, 9).toordinal(), "world": {"files": {}}}]
+    return []
+
+
 def describe(case: dict) -> Any:
     if case["kind"] == "shard":
         return {k: case[k] for k in ("kind", "shard", "lo", "hi", "managers")}
+    if case["kind"] == "full":
+        return {"kind": "full"}
     return {"kind": "history", "dates": case["dates"], "steps": case["steps"][:12], "n_steps": len(case["steps"])}
 
 
@@ -207,6 +218,8 @@ def execute(case: dict, scratch: str) -> dict:
     os.makedirs(os.path.join(sim.zdir, ".zorg"), exist_ok=True)
     if case["kind"] == "shard":
         return _execute_shard(case, sim, scratch, rec)
+    if case["kind"] == "full":
+        return _execute_full(case, sim, scratch, rec)
     return _execute_history(case, sim, scratch, rec)
 
 
@@ -261,6 +274,35 @@ def _execute_shard(case: dict, sim: core.Sim, scratch: str, rec: hist.Rec) -> di
             return rec.result(hist.viol("allocation-after-exhaustion", "-", outcome=o2.brief(), ret=o2.ret if o2.status == "ok" else None))
         rec.stat("shards-composed")
     rec.states.append(json.dumps(_read_next_ids(sim), sort_keys=True))
+    return rec.result()
+
+
+def _execute_full(case: dict, sim: core.Sim, scratch: str, rec: hist.Rec) -> dict:
+    day = case["date"]
+    o = sim.run({"op": "alloc_until_error", "date": day, "limit": TOTAL + 10}, budget=1800)
+    rec.stats["processes"] += 1
+    rec.probe("full-chain-sequential-fallback")
+    if o.status != "ok":
+        return rec.result(hist.viol("allocation-crashed", f"{(o.exc or {}).get('type')}", outcome=o.brief()))
+    zids = o.ret["zids"]
+    rec.events.append({"full": True, "n": len(zids), "error": o.ret["error"]})
+    seen: set = set()
+    # form / alphabet / uniqueness for all; lexing and compilation for every 40th
+    for i, z in enumerate(zids):
+        m = _FORM.match(z)
+        if not m or set(m.group(2)) & _EXCLUDED:
+            return rec.result(hist.viol("zid-malformed", "-", zid=z))
+        if z in seen:
+            return rec.result(hist.viol("zid-allocated-twice", f"suffix-length-{len(m.group(2))}", zid=z))
+        seen.add(z)
+    v = check_zids(zids[::40], [day] * len(zids[::40]), set(), scratch, rec)
+    if v:
+        return rec.result(v)
+    rec.stats["evaluations"] = rec.stats.get("evaluations", 0) + len(zids)
+    if o.ret["error"] is None or o.ret.get("error_type") != "RuntimeError":
+        return rec.result(hist.viol("no-out-of-ids-error", "-", allocated=len(zids)))
+    if len(zids) != TOTAL:
+        return rec.result(hist.viol("exhaustion-after-wrong-count", f"handed-out-{len(zids)}-of-{TOTAL}", last=zids[-1:]))
     return rec.result()
 
 
